@@ -56,6 +56,10 @@ CHECKS = {
             'C16_carried_*: whenever the parent receives a final report the state it stores is the child\'s state at the end of its life, and without a report it keeps the initial value - for every target behaviour, event kind and landing point; C16_graceful_reports_*: return, exception and graceful terminate at every reachable landing point outside the loop\'s own handlers do deliver the state. Every run uses state-assigning subclasses of the six classes: user_state read while the child is held alive at the landing point and after death is compared with the model; chains of restarts / re-creations, restart of a busy worker, assignment from the parent, and a frontend delayed between result and state message are exercised.',
             'Partial: persistent loops by correspondence; values abstracted to initial/last. Known finding: remote kind shows the final state slightly before is_alive() turns False.',
             '§7 C16'),
+    'C04': ('Lean 4 proof over the blocking structure REGENERATED from /repo (T-block) + flag-machine induction + measured runs on uncooperative real children',
+            'Gen/Blocking.lean lists, for every parent-side wait/terminate, each blocking call with what bounds it, the guard deriving the remote timeout, the returned expression and the negative-timeout check. C04_bounded_* / C04_factor: every blocking call is timeout-bounded, poll-guarded or a reply of the (itself bounded) server control thread, at most three timeouts in a row; C04_remote_timeout: for every timeout including 0 the server is asked to wait a finite time <= timeout, and the generated guard is the one for which this holds; C04_truthful; C04_idempotent (induction over arbitrary call sequences on dead / never-run workers). Every run executes histories of wait/terminate/is_alive/close with timeouts 0 and 0.3 on real thread/process/remote workers whose target is cooperative, swallows exceptions, sleeps, holds the GIL in C or is SIGSTOPped, each scenario in its own process, checking duration, return value against /proc liveness, immediacy on dead/never-run workers and death after a forced terminate.',
+            'Partial: wall-clock behaviour, signal delivery and the kernel are measured, not proved (bound checked as 3 x timeout + 2.5 s). The T-block translator recognises join/poll/get/recv_msg/accept patterns only.',
+            '§7 C04'),
 }
 NOT_YET = 'check not built yet in this session (work in progress; see DESIGN.md §13 for the order)'
 
